@@ -22,7 +22,7 @@ from pyvc.values import And, Or, Not
 from pyvc.interp import PyRaise
 from pyvc.models import GhostLock
 from pyvc.harness import native_call
-from .common import raw
+from .common import lock_name, raw
 
 ASSUMPTIONS = [
     'threading.RLock: mutual exclusion and re-entrancy; Thread.start starts exactly one thread running run()',
@@ -155,7 +155,7 @@ class Lifecycle(Unit):
 
         def checked(I_, conn):
             # check-then-act must be atomic: the activity check runs with the write lock held
-            I_.E.check('refusal.check-under-lock', conn._write_lock.depth >= 1,
+            I_.E.check('refusal.check-under-lock', getattr(conn, lock_name()).depth >= 1,
                        note='_check_connection is called with the write lock held (otherwise a concurrent connect can pass it too)')
             return I_.call_function(real_check, [conn], {})
         I.override(real_check, checked, kind='contract')
@@ -174,7 +174,7 @@ class Lifecycle(Unit):
         self.connect_fails = bool(E.fork(2, 'tcp-refused')) if op in ('connect', 'status') else False
         before = dict(conn.__dict__)
         before_ctx = conn.context.protocol_version
-        lock = conn._write_lock
+        lock = getattr(conn, lock_name())
         try:
             if op == 'connect':
                 I.call(I.getattr_(conn, 'connect'))
